@@ -255,6 +255,25 @@ class ScriptAction:
                         o.h_flag = not getattr(o, 'h_flag', False)
                         n += 1
                 out = n
+            elif kind == 'clear_data':
+                # the user discards the statistics gathered so far by editing the public dictionary in place
+                data = w.system.simulation_data
+                if op.get('label'):
+                    data.pop(op['label'], None)
+                    out = 'deleted:' + op['label']
+                else:
+                    data.clear()
+                    out = 'cleared'
+            elif kind == 'reprice_waiting':
+                # the user re-prices, in place, every part that is waiting in a device's output
+                n = 0
+                for d in w.devs.values():
+                    o = getattr(d, '_output', None)
+                    if o is not None and hasattr(o, 'routing_history'):
+                        for leaf in leaves_of(o):
+                            leaf.add_value('repriced', op['delta'])
+                            n += 1
+                out = n
             elif kind == 'env_run':
                 # the user drives the public Environment directly between two simulate() calls
                 w.system.env.run(op['d'])
@@ -286,10 +305,21 @@ core.load_library()
 from simprocesd.model.factory_floor import PartProcessor, PartGenerator, Part, Batch  # noqa: E402
 
 
+def order_cost(item, tag, n_done):
+    """Cost of a work order with this tag on this processor, given how many orders with the tag it has completed
+    (a machine may get dearer - or cheaper - with every service)."""
+    wo = item.get('wo') or {}
+    if tag not in wo:
+        return 0
+    return wo[tag][2] + item.get('wo_cost_step', 0) * n_done
+
+
 class HProc(PartProcessor):
     """PartProcessor whose work orders have durations / capacities / costs from the spec."""
 
-    def __init__(self, name, upstream, cycle_time, resources_for_processing, wo, log, dev_id):
+    def __init__(self, name, upstream, cycle_time, resources_for_processing, wo, log, dev_id, cost_step=0):
+        self.h_cost_step = cost_step
+        self.h_done = {}
         self.h_wo = wo or {}
         self.h_log = log
         self.h_id = dev_id
@@ -303,7 +333,9 @@ class HProc(PartProcessor):
         return self.h_wo[tag][1] if tag in self.h_wo else super().get_work_order_capacity(tag)
 
     def get_work_order_cost(self, tag):
-        return self.h_wo[tag][2] if tag in self.h_wo else super().get_work_order_cost(tag)
+        if tag in self.h_wo:
+            return self.h_wo[tag][2] + self.h_cost_step * self.h_done.get(tag, 0)
+        return super().get_work_order_cost(tag)
 
     def start_work(self, tag):
         if not instrument.PROBING:
@@ -313,6 +345,7 @@ class HProc(PartProcessor):
     def end_work(self, tag):
         if not instrument.PROBING:
             self.h_log.hooks.append((self.h_log.now(), self.h_id, 'end', tag, self.h_log.serial()))
+        self.h_done[tag] = self.h_done.get(tag, 0) + 1
         super().end_work(tag)
 
 
@@ -330,11 +363,20 @@ class SubclassGate(_DecisionGate):
         return self.h_pred(self, part)
 
 
+class HPallet(Batch):
+    """A user-defined kind of Batch (documented extension point: generate_part_helper may return any Part)."""
+
+    def __init__(self, name, parts, pallet_no):
+        super().__init__(name=name, parts=parts)
+        self.pallet_no = pallet_no
+
+
 class HGen(PartGenerator):
     """Part generator that stamps every leaf part with a harness uid."""
 
-    def __init__(self, src_id, values, qualities, batch_sizes, log, scratch=False):
+    def __init__(self, src_id, values, qualities, batch_sizes, log, scratch=False, batch_sub=False):
         super().__init__(name_prefix=src_id)
+        self.batch_sub = batch_sub
         self.scratch = [] if scratch else None
         self.src_id = src_id
         self.values = values
@@ -343,7 +385,7 @@ class HGen(PartGenerator):
         self.log = log
 
     def __deepcopy__(self, memo):
-        return HGen(self.src_id, self.values, self.qualities, self.batch_sizes, NULL_LOG)
+        return HGen(self.src_id, self.values, self.qualities, self.batch_sizes, NULL_LOG, batch_sub=self.batch_sub)
 
     def _leaf(self, name, n, k, j):
         v = self.values[j % len(self.values)]
@@ -365,6 +407,8 @@ class HGen(PartGenerator):
                 self.scratch.clear()
                 self.scratch.extend(parts)
                 top = Batch(name=part_name, parts=self.scratch)
+            elif self.batch_sub:
+                top = HPallet(part_name, parts, n)
             else:
                 top = Batch(name=part_name, parts=parts)
             top.hseq = n
@@ -438,7 +482,7 @@ def build(spec, bus=None, script=True, system=None, known=None):
         ups = [w.devs[u] if u in w.devs else known[u] for u in it.get('up', [])]
         if k == 'source':
             gen = cls['HGen'](i, it.get('values', [0]), it.get('qualities', [1]), it.get('batch'), log,
-                              scratch=bool(it.get('scratch')))
+                              scratch=bool(it.get('scratch')), batch_sub=bool(it.get('batch_sub')))
             kw = {}
             if it.get('budget') is not None:
                 kw['starting_parts'] = it['budget']
@@ -447,7 +491,7 @@ def build(spec, bus=None, script=True, system=None, known=None):
             d = PartHandler(name=nm, upstream=ups, cycle_time=it['ct'], value=it.get('value', 0))
         elif k == 'processor':
             d = cls['HProc'](nm, ups, it['ct'], dict(it['res']) if it.get('res') else None,
-                             it.get('wo'), log, i)
+                             it.get('wo'), log, i, it.get('wo_cost_step', 0))
             if it.get('ct_script'):
                 d.add_receive_part_callback(CtScript(it['ct_script']))
             if it.get('value_add') or it.get('quality_mul') is not None:
